@@ -24,6 +24,8 @@ def valid_specs(tier, modes=MODES):
         add('%s: 1 call, 1 block, <=3 files' % mname, cont, chunk, [call(1)], 1)
         add('%s: 2 calls, 1 block each, <=2 files each' % mname, cont, chunk, [call(1, 2), call(1, 2)], 3)
         add('%s: C API digital_rf_write_hdf5 x2, <=2 files each' % mname, cont, chunk, [call(1, 2), call(1, 2)], 3, api='single')
+        add('%s: 3 calls into one file (1 block, %s, 1 block)' % (mname, '2 blocks' if not cont else '1 block'), cont, chunk,
+            [call(1, 1), call(2 if not cont else 1, 1), call(1, 1)], 4)
         if not cont:
             add('%s: 1 call, 2 blocks, <=3 files' % mname, cont, chunk, [call(2)], 2)
             add('%s: 1 call, 3 blocks, <=2 files' % mname, cont, chunk, [call(3, 2)], 6)
